@@ -1725,9 +1725,10 @@ def smap_attr(E, m, name):
 class SymRange(SymIter):
     """range(start, stop) with symbolic bounds; for-loops over it are cut in the consumer's frame (k = iteration index)."""
 
-    def __init__(self, start, stop):
+    def __init__(self, start, stop, on_each=None):
         self.start = start
         self.stop = stop
+        self.on_each = on_each      # called before the body of the arbitrary iteration (an async range suspends per element)
 
     def cut(self, E, node, env, spec, qual, k):
         from . import engine as ENG_
@@ -1751,6 +1752,8 @@ class SymRange(SymIter):
         if mode == 0:
             E.assume(I(kk) < n)
             E.assign(node.target, mk_int(I(self.start) + I(kk)), env)
+            if self.on_each is not None:
+                self.on_each(E)
             try:
                 E.exec_block(node.body, env)
             except BreakSig:
